@@ -138,14 +138,18 @@ def verify_function(qualname, opts=None):
                 rep.reason = "no obligations generated"
                 return rep
             rep.paths = 1
-            if opts.get("defer"):
+            if getattr(con, "also_verify", False):
+                # the idiom-specific obligations are added to those of the ordinary contract (requires / ensures / loops)
+                custom_obls = obls
+            elif opts.get("defer"):
                 for ob in obls:
                     rep.obligations.append({"name": ob.key(), "kind": ob.kind, "line": ob.line, "status": "pending",
                                             "smt2": smt.export_query(ob.pc, ob.goal), "relaxed": None, "noseq": None, "linear": None, "sliced": None})
                 rep.status = "PENDING"
             else:
                 _discharge(obls, rep, opts)
-            return rep
+            if not getattr(con, "also_verify", False):
+                return rep
         eng = Engine(opts)
         eng.fn = con
         eng.mi = mi
@@ -246,6 +250,8 @@ def verify_function(qualname, opts=None):
                 raise OutOfSubset(f"outcome {oc.kind} at function level")
         # vacuity canary: `False` at entry must not be provable
         obls = eng.obligations
+        if getattr(con, "custom", None) is not None and getattr(con, "also_verify", False):
+            obls = obls + custom_obls
         if not obls:
             rep.status = "ERROR"
             rep.reason = "no obligations generated"
